@@ -30,7 +30,7 @@ func TestC11_PedersenFresh(t *testing.T) {
 
 func TestC11_PedersenReshare(t *testing.T) {
 	ev := evFor("C11")
-	rcheck(t, 100, 12000, func(t *rapid.T) { c11PedersenReshare(t, ev, min(c11MaxN(), 6)) })
+	rcheck(t, 300, 12000, func(t *rapid.T) { c11PedersenReshare(t, ev, min(c11MaxN(), 6)) })
 }
 
 func TestC11_PedersenProtocol(t *testing.T) {
